@@ -264,6 +264,19 @@ def oracle(case, meta, impl):
     return v
 
 
+def project(case, meta, res):
+    """with two or more tracked sources that fail to load, WHICH one a dev-mode render reports depends on the iteration
+    order of the registry's HashMap of sources (stable for one registry value, not across registries): the property
+    constrains that the render fails with the load error of a tracked source, not which – the name and reason inside a
+    TemplateError are compared only up to that"""
+    import copy
+    r = copy.deepcopy(res)
+    for x in r.get("results", []):
+        if x.get("r") == "rerr" and x.get("reason") == "TemplateError":
+            x["args"] = ["<load error of a tracked source>"]
+    return r
+
+
 def nontrivial_key(case, meta, impl):
     return case["id"] if any(h.startswith("reg_") for h in meta["hist"]) else None
 
